@@ -142,8 +142,11 @@ func run(tapeJSON json.RawMessage, res *core.Result) {
 	if tp.KDCForm != "" {
 		res.Probes["kdc-named-without-port-or-as-ipv6-address"]++
 	}
+	if tp.Split != "" && tp.NKDC > 1 {
+		res.Probes["realm-configured-in-two-blocks"]++
+	}
 	cm := gk.ConfModel{DefaultRealm: "SIM.TEST", UDPLimit: limit, NoAddresses: &yes, Realms: map[string][]string{"SIM.TEST": confKDCs},
-		KPasswd: map[string][]string{"SIM.TEST": kpAddrs}, DomainRealm: map[string]string{".sim.test": "SIM.TEST"}, TktEtypes: []string{gk.EtypeNames[18]}, TGSEtypes: []string{gk.EtypeNames[18]}}
+		SplitRealms: tp.Split, KPasswd: map[string][]string{"SIM.TEST": kpAddrs}, DomainRealm: map[string]string{".sim.test": "SIM.TEST"}, TktEtypes: []string{gk.EtypeNames[18]}, TGSEtypes: []string{gk.EtypeNames[18]}}
 	cfg, _, err := cm.Parse()
 	if err != nil {
 		res.Verdict, res.Harness = "harness-error", "krb5.conf: "+err.Error()
@@ -203,6 +206,8 @@ func run(tapeJSON json.RawMessage, res *core.Result) {
 				// ordinary (the size of the answer, how krb5.conf names the servers) does not excuse a failure
 				what := "plain"
 				switch {
+				case tp.Split != "":
+					what = "realm-in-two-" + tp.Split + "s"
 				case tp.KDCForm != "":
 					what = "kdc-form-" + tp.KDCForm
 				case tp.BigTkt > 0:
@@ -456,7 +461,9 @@ func run(tapeJSON json.RawMessage, res *core.Result) {
 		if panicMsg != "" {
 			kind = "panic"
 		}
-		if tp.KDCForm != "" && (kind == "must-succeed-but-failed" || kind == "krb-error-not-surfaced" || kind == "refusal-of-the-server-not-surfaced") {
+		if tp.Split != "" && tp.NKDC > 1 && (kind == "must-succeed-but-failed" || kind == "krb-error-not-surfaced" || kind == "refusal-of-the-server-not-surfaced" || kind == "outcome-not-allowed") {
+			engine.Violate(res, kind+"|"+tp.Limit+"|realm-in-two-"+tp.Split+"s", d)
+		} else if tp.KDCForm != "" && (kind == "must-succeed-but-failed" || kind == "krb-error-not-surfaced" || kind == "refusal-of-the-server-not-surfaced") {
 			// how krb5.conf names the servers matters more than the shape of the endpoint assignment
 			engine.Violate(res, kind+"|"+tp.Limit+"|kdc-form-"+tp.KDCForm, d)
 		} else if tp.BigTkt > 0 && kind == "must-succeed-but-failed" {
